@@ -37,7 +37,7 @@ pub fn def() -> PropDef {
         quick_runs: 30000,
         thorough_runs: 600_000,
         level: "exploration",
-        rule: "a live daemon; index%3: 0 = 1-3 shutdown-caller tasks (each calling once or twice) start after 0..40 scheduler steps while a raw peer follows a drawn plan (idle / k complete requests / stopped after b bytes of a request, b enumerated over every offset of GET_VRING_BASE by index / closed at offset b / closed with a reply pending); after they returned wait() must return Ok, the peer must read EOF and a second start() on the same listener must serve a request; 1 = no shutdown request: the peer disconnects at offset b (enumerated) or with a reply pending or sends a malformed request: wait() must return Err, the peer must read EOF after a request error; 2 = serve(): must return Ok for clean and partial-header disconnects and raise every worker's exit event; always: dropping the daemon ends all worker tasks; forced switches at the daemon-thread and shutdown hold points; hang = the scheduler's deadlock detector; non-trivial = a scheduling choice existed",
+        rule: "a live daemon; index%4: 3 = the application drops a connected daemon without wait() while the peer (idle / after k requests / mid-message) keeps its end open: daemon thread and every worker must terminate and the peer must read EOF; 0 = 1-3 shutdown-caller tasks (each calling once or twice) start after 0..40 scheduler steps while a raw peer follows a drawn plan (idle / k complete requests / stopped after b bytes of a request, b enumerated over every offset of GET_VRING_BASE by index / closed at offset b / closed with a reply pending); after they returned wait() must return Ok, the peer must read EOF and a second start() on the same listener must serve a request; 1 = no shutdown request: the peer disconnects at offset b (enumerated) or with a reply pending or sends a malformed request: wait() must return Err, the peer must read EOF after a request error; 2 = serve(): must return Ok for clean and partial-header disconnects and raise every worker's exit event; always: dropping the daemon ends all worker tasks; forced switches at the daemon-thread and shutdown hold points; hang = the scheduler's deadlock detector; non-trivial = a scheduling choice existed",
         assumptions: ASSUME,
         real: REAL_D,
         stubs: STUB_D,
@@ -153,8 +153,8 @@ fn run_v<V: VringT<GM<()>> + Clone + Send + Sync + 'static>(sim: &Sim, cfg: &Run
         "sent",
         "peer.close",
     ];
-    let mode = cfg.index % 3;
-    let sweep = cfg.index / 3;
+    let mode = cfg.index % 4;
+    let sweep = cfg.index / 4;
     let (adapter, masks, plan, ncallers, delays, twice, sweep_key) = sim.with_w(|t| {
         let adapter = if t.chance(1, 2) { Adapter::Mutex } else { Adapter::RwLock };
         let masks: Vec<u64> = if t.chance(1, 2) { vec![0b11] } else { vec![0b01, 0b10] };
@@ -176,6 +176,11 @@ fn run_v<V: VringT<GM<()>> + Clone + Send + Sync + 'static>(sim: &Sim, cfg: &Run
                     }
                 }
             }
+            3 => match t.draw(3) {
+                0 => PeerPlan::Idle,
+                1 => PeerPlan::Requests(k + 1),
+                _ => PeerPlan::MidMessage(k, t.draw(21) as usize),
+            },
             1 => {
                 if sweep < 21 {
                     key = Some(21 + sweep);
@@ -201,7 +206,7 @@ fn run_v<V: VringT<GM<()>> + Clone + Send + Sync + 'static>(sim: &Sim, cfg: &Run
     });
     let desc = format!(
         "mode={} adapter={adapter:?} vring={} masks={masks:?} peer={plan:?} shutdown_callers={} delays={delays:?} twice={twice:?}",
-        ["shutdown", "no-shutdown", "serve"][mode as usize],
+        ["shutdown", "no-shutdown", "serve", "drop-while-connected"][mode as usize],
         std::any::type_name::<V>().rsplit("::").next().unwrap_or(""),
         if mode == 0 { ncallers } else { 0 }
     );
@@ -282,8 +287,43 @@ fn run_v<V: VringT<GM<()>> + Clone + Send + Sync + 'static>(sim: &Sim, cfg: &Run
     let handle = handle.unwrap();
     let po = peer_out.clone();
     let plan2 = plan.clone();
-    let expect_eof = mode == 0 || matches!(plan, PeerPlan::BadRequest(_));
-    let peer = sim.spawn("peer", "peer", move || peer_run(sock, plan2, expect_eof, po));
+    let expect_eof = mode == 0 || mode == 3 || matches!(plan, PeerPlan::BadRequest(_));
+    // mode 3: the peer keeps its end open after it saw end-of-stream, until the harness lets go
+    let release = Arc::new(std::sync::atomic::AtomicBool::new(mode != 3));
+    let rel2 = release.clone();
+    let peer = sim.spawn("peer", "peer", move || {
+        let keep = sock.try_clone().ok();
+        peer_run(sock, plan2, expect_eof, po);
+        sched::wait_until(&|| rel2.load(std::sync::atomic::Ordering::SeqCst), "peer.hold_socket_open");
+        drop(keep);
+    });
+    if mode == 3 {
+        // ---- the application drops a connected daemon without calling wait()
+        drop(handle);
+        drop(daemon);
+        sim.settle();
+        let alive: Vec<String> = sim.pending_tasks().into_iter().filter(|t| t.starts_with("worker") || t.starts_with("daemon")).collect();
+        let po = peer_out.lock().unwrap().clone();
+        if !alive.is_empty() {
+            viol(
+                "threads_alive_after_drop",
+                plan_key.clone(),
+                format!("the daemon was dropped while connected (peer {plan:?}, still holding its end open) but these threads keep running: {alive:?}"),
+            );
+        }
+        if !po.iter().any(|s| s.starts_with("eof")) {
+            viol("peer_no_eof_after_drop", plan_key.clone(), format!("peer did not observe end-of-stream after the daemon was dropped: {po:?}"));
+        }
+        release.store(true, std::sync::atomic::Ordering::SeqCst);
+        sim.join(peer);
+        close_leaked_exit_consumers(&log);
+        drop(listener);
+        return RunOut {
+            desc,
+            nontrivial: false,
+            sweep_key: None,
+        };
+    }
     if mode == 0 {
         let mut callers = Vec::new();
         for c in 0..ncallers {
